@@ -191,7 +191,10 @@ The statements of this section are those of `Kmip.C04` (§7 of Props/C04.lean), 
 check of C18 builds them, audits their axioms and requires their presence: they are part of what C18
 claims. `xmlRead`/`jsonRead` are the models of the XML/JSON readers on PARSED documents (`XElem`/`JVal`:
 the tokenisers of encoding/xml and encoding/json are not modelled), for any hint function `H` (what a
-typed caller tells the reader about enumeration and mask tags; `noHints` = the generic `ttlv.Value`),
+typed caller tells the reader about enumeration and mask tags, POSITION BY POSITION: `Hints` is
+`List Nat → Int → Hint`, root-first path of child indices then the tag, so two elements with the same tag
+— two `AttributeValue`s — may be read with different enumeration types; the hints that look at the tag
+only are `Hints.ofTag f`; `noHints` = the generic `ttlv.Value`, at every position),
 any registry `T` with the stated well-formedness (proved of the regenerated one: `genTables_wf`,
 `genTables_bounded`) and any RFC 3339 formatter/parser pair satisfying `Rfc3339.Lawful`. -/
 
